@@ -2,6 +2,7 @@ import Driver.Util
 import NutsModel.C09.Ambassador
 import NutsModel.C09.Entry
 import NutsModel.C09.Manager
+import NutsModel.C09.Commit
 import NutsModel.Facts.C09
 import NutsModel.Facts.C10
 open Lean Nuts.Drv Nuts.C10 Nuts.C09 Nuts
@@ -201,15 +202,42 @@ def step (st : St) (j : Json) : St × List String :=
   | "mgr" =>
     -- the node's own publishing path: Manager.Update on the store of this moment, key store = the listed key ids
     let hdr := s!"mgr {jInt j "h"}.{jNat j "i"}.{jNat j "j"}"
-    if (jObj j "doc").isNull then (st, [s!"{hdr} err:mgr:unparseable"])
+    let via := jStr j "via"
+    let has := jStrs j "has"
+    let hasF := fun (k : String) => has.contains k
+    let nextO : Option NDoc := if (jObj j "doc").isNull then none else some (parseDoc (jObj j "doc"))
+    let showT := fun (r : Res Template) =>
+      match r with
+      | .ok (.update p) => s!"{hdr} ok kid={p.kid} prevs=[{String.intercalate "," (p.prevs.map shortRef)}]"
+      | .ok (.create kid k _) => s!"{hdr} ok kid={kid} prevs=[] key={k}"
+      | .ok .nothing => s!"{hdr} ok nothing"
+      | .err e => s!"{hdr} err:{e}"
+      | .panic x => s!"{hdr} panic:{x}"
+    if via == "" then
+      match nextO with
+      | none => (st, [s!"{hdr} err:mgr:unparseable"])
+      | some next =>
+        let c := cfgFor none ""
+        match managerUpdate c st.store hasF (jBool j "svcOk") (jStr j "id") next with
+        | .ok p => (st, [s!"{hdr} ok kid={p.kid} prevs=[{String.intercalate "," (p.prevs.map shortRef)}]"])
+        | .err e => (st, [s!"{hdr} err:{e}"])
+        | .panic x => (st, [s!"{hdr} panic:{x}"])
+    else if via == "new" then
+      -- Manager.NewDocument for the key `key` (DID id string = `b58`, the harness's own base58 thumbprint), then Commit(created)
+      let k := jStr j "key"
+      let c := cfgFor (some k) (jStr j "b58")
+      let d := newDocument c k
+      let rels := s!"{d.auth.length},{d.assertion.length},{d.keyAgr.length},{d.capInv.length},{d.capDel.length}"
+      let shape := s!"{d.id}|{String.intercalate "," (d.vms.map (·.id))}|{rels}|ctrl={d.controllers.length}|svc={d.services.length}|sub={didSubKIDName c d.idID k}"
+      (st, [showT (managerCommit c st.store hasF (jBool j "svcOk") .created d.id (some d) d) ++ " new=" ++ shape])
     else
-      let next := parseDoc (jObj j "doc")
-      let has := jStrs j "has"
       let c := cfgFor none ""
-      match managerUpdate c st.store (fun k => has.contains k) (jBool j "svcOk") (jStr j "id") next with
-      | .ok p => (st, [s!"{hdr} ok kid={p.kid} prevs=[{String.intercalate "," (p.prevs.map shortRef)}]"])
-      | .err e => (st, [s!"{hdr} err:{e}"])
-      | .panic x => (st, [s!"{hdr} panic:{x}"])
+      let t : ChangeType := if via == "created" then .created else if via == "deactivated" then .deactivated
+        else if via == "updated" then .updated else .other
+      match t, nextO with
+      | .deactivated, none => (st, [s!"{hdr} err:mgr:bad-op"])
+      | .deactivated, some d => (st, [showT (managerCommit c st.store hasF (jBool j "svcOk") .deactivated (jStr j "id") none d)])
+      | t, n => (st, [showT (managerCommit c st.store hasF (jBool j "svcOk") t (jStr j "id") n { id := "", idID := "" })])
   | "reprocess" =>
     -- REPROCESS of application/did+json: the listed transactions go through `callback` again, in order
     let idx := jNats j "is"
